@@ -50,6 +50,11 @@ def check(repo: Repo) -> Result:
         c11.unit_copy_values(repo, t, "C11-R4")
 
     share(res, r5, "C11", _copy, ["C11-R4"], want=lambda k: k == "Unit.copy:values")
+
+    from rules import c10
+
+    r6 = res.rule("C03-R6", "in_base / convert_to_base agree with to(get_base_equivalent): in_base hands the array back unconverted only when its unit expression is the system's own (a scaled dimensionless or merely equal-valued unit still converts; shared with C10-R3)", floor=2)
+    share(res, r6, "C10", lambda t: c10.error_discipline(repo, t), ["C10-R3"], want=lambda k: k in ("in_base", "in_base:unchanged-only-if-system-unit", "get_base_equivalent:result"), min_keys=2)
     return res
 
 
@@ -467,4 +472,5 @@ MUTANTS = [
     Mutant("em-target-branch-drops-prefix", UO, "_check_em_conversion", "            em_map = (to_unit, em_unit, em_info[2])", "            em_map = (to_unit, Unit(em_info[1], registry=registry), em_info[2])", ("C03-R4",)),
     Mutant("em-own-family-scaled", UO, "_check_em_conversion", "em_map = (unit_system[unit.dimensions], unit, 1.0)", "em_map = (unit_system[unit.dimensions], unit, em_info[2])", ("C03-R4",)),
     Mutant("unit-copy-drops-offset", UO, "Unit.copy", "return Unit(expr, base_value, base_offset, dimensions, registry)", "return Unit(expr, base_value=base_value, dimensions=dimensions, registry=registry)", ("C03-R5",)),
+    Mutant("in-base-unchanged-on-equal-value", ARR, "unyt_array.in_base", "            to_units = self.units.get_base_equivalent(unit_system)\n", "            to_units = self.units.get_base_equivalent(unit_system)\n            if to_units == self.units:\n                return self.copy()\n", ("C03-R6",)),
 ]
